@@ -1,4 +1,5 @@
 import WebrtcVerif.Model.Rtpdump
+import WebrtcVerif.Proofs.RtpdumpLemmas
 /-!
 # C36 — rtpdump files round-trip, and malformed records are rejected
 
@@ -32,58 +33,86 @@ def Header.unrepresentable (h : Header) : Prop :=
     exactly that packet and leaves exactly what followed. -/
 theorem C36_packet_roundtrip (p : Packet) (rest : Bs) (hp : Packet.representable p) :
     ∃ d, p.marshal = .ok d ∧ next (d ++ rest) = .ok (p, rest) := by
-  sorry
+  obtain ⟨h1, h2, h3, h4, h5⟩ := hp
+  exact next_marshal p rest h1 h2 h3 h4 h5
 
 /-- Any list of representable packets reads back as exactly that list, then clean end of stream. -/
 theorem C36_packets_roundtrip (ps : List Packet) (hp : ∀ p ∈ ps, Packet.representable p) :
     ∃ bytes, writePackets ps 0 [] = (bytes, none) ∧ readAll bytes = (ps, .eof) := by
-  sorry
+  obtain ⟨body, hw, hr⟩ := writePackets_ok ps 0 [] (fun p hmem => by
+    obtain ⟨h1, h2, h3, h4, h5⟩ := hp p hmem
+    refine ⟨_, marshal_ok p h2 h3 h5, fun rest => ?_⟩
+    obtain ⟨d, hd, hn⟩ := next_marshal p rest h1 h2 h3 h4 h5
+    rw [marshal_ok p h2 h3 h5] at hd
+    cases hd
+    exact hn)
+  exact ⟨body, by simpa using hw, hr⟩
 
 /-- The binary header round-trips. -/
 theorem C36_header_roundtrip (h : Header) (hh : Header.representable h) :
     ∃ d, h.marshal = .ok d ∧ d.length = 16 ∧ Header.unmarshal d = some h := by
-  sorry
+  obtain ⟨st, src, port⟩ := h
+  obtain ⟨hs, hport, h0, h1, h2⟩ := hh
+  simp only at hs hport h0 h1 h2
+  match src, hs with
+  | some (a, b', c, d), _ => exact header_roundtrip st a b' c d port hport h0 h1 h2
 
+-- (`hport` and `hlen` are not needed: `digits` always yields 1–5 digits, and `take` tolerates short input)
+set_option linter.unusedVariables false in
 /-- The preamble the writer emits is accepted by the reader's regular expression and consumed exactly. -/
 theorem C36_preamble_accepted (a b' c d : Byte) (port : Nat) (hport : port < 65536) (rest : Bs)
     (hlen : 36 ≤ (preamble a b' c d port ++ rest).length) :
     matchPreamble ((preamble a b' c d port ++ rest).take preambleLen) = true ∧
     dropLine (preamble a b' c d port ++ rest) = rest := by
-  sorry
+  exact ⟨matchPreamble_take a b' c d port rest, dropLine_preamble a b' c d port rest⟩
 
 /-- Whole file: header then packets read back as written. -/
 theorem C36_file_roundtrip (h : Header) (ps : List Packet) (hh : Header.representable h)
     (hp : ∀ p ∈ ps, Packet.representable p) :
     ∃ hd body, newWriter h = .ok hd ∧ writePackets ps 0 [] = (body, none) ∧
       ∃ r, newReader (hd ++ body) = .ok (h, r) ∧ readAll r = (ps, .eof) := by
-  sorry
+  obtain ⟨body, hw, hr⟩ := C36_packets_roundtrip ps hp
+  obtain ⟨st, src, port⟩ := h
+  obtain ⟨hs, hport, h0, h1, h2⟩ := hh
+  simp only at hs hport h0 h1 h2
+  match src, hs with
+  | some (a, b', c, d), _ =>
+    obtain ⟨hd, hm, hlen, hu⟩ := header_roundtrip st a b' c d port hport h0 h1 h2
+    refine ⟨preamble a b' c d port ++ hd, body, ?_, hw, body, ?_, hr⟩
+    · simp [newWriter, hm]
+    · exact newReader_preamble a b' c d port hd body _ hlen hu
 
 /-- The writer refuses what the format cannot represent (nothing is written for that item). -/
 theorem C36_writer_refuses_packet (p : Packet) (hp : Packet.unrepresentable p) :
     p.marshal = .error .unrepresentable := by
-  sorry
+  exact marshal_refuses p hp
 
 theorem C36_writer_refuses_header (h : Header) (hh : Header.unrepresentable h) :
     newWriter h = .error .unrepresentable := by
-  sorry
+  exact newWriter_refuses h hh
 
 /-- A refused packet leaves the file as it was: the bytes written are those of the packets before it. -/
 theorem C36_refusal_writes_nothing (ps : List Packet) (p : Packet) (qs : List Packet)
     (hps : ∀ q ∈ ps, Packet.representable q) (hp : Packet.unrepresentable p) :
     ∃ bytes, writePackets ps 0 [] = (bytes, none) ∧
       writePackets (ps ++ p :: qs) 0 [] = (bytes, some ps.length) := by
-  sorry
+  obtain ⟨bytes, h1, h2⟩ := writePackets_refuse ps p qs 0 []
+    (fun q hq => by
+      obtain ⟨_, h2, h3, _, h5⟩ := hps q hq
+      exact ⟨_, marshal_ok q h2 h3 h5⟩)
+    ⟨_, marshal_refuses p hp⟩
+  exact ⟨bytes, h1, by simpa using h2⟩
 
 /-- The reader rejects every record whose length field is below 8, whatever follows. -/
 theorem C36_reader_rejects_short (l0 l1 q0 q1 o0 o1 o2 o3 : Byte) (rest : Bs) (h : rd16be l0 l1 < 8) :
     next ([l0, l1, q0, q1, o0, o1, o2, o3] ++ rest) = .error .malformed := by
-  sorry
+  exact next_short l0 l1 q0 q1 o0 o1 o2 o3 rest h
 
 /-- …and never returns a payload that is not the `Length − 8` bytes following the record header. -/
 theorem C36_reader_payload_exact (s : Bs) (p : Packet) (r : Bs) (h : next s = .ok (p, r)) :
     ∃ l0 l1 q0 q1 o0 o1 o2 o3, s = [l0, l1, q0, q1, o0, o1, o2, o3] ++ p.payload ++ r ∧
       rd16be l0 l1 = p.payload.length + 8 := by
-  sorry
+  exact next_payload_exact s p r h
 
 -- non-vacuity
 example : Packet.representable { offsetNanos := 123000000, isRTCP := false, payload := [1, 2, 3, 4] } := by
